@@ -157,7 +157,24 @@ func convertVMFunctionToType(rv reflect.Value, rt reflect.Type) (reflect.Value, 
 		// for runVMFunction first arg is always context
 		// TOFIX: use normal context
 		args = append(args, reflect.ValueOf(context.Background()))
+		// a variadic VM function takes its variadic arguments as they are, not wrapped a second time
+		vmType := rv.Type()
+		numFixed := vmType.NumIn() - 1
+		if vmType.IsVariadic() {
+			numFixed--
+		}
 		for i := 0; i < rt.NumIn(); i++ {
+			if vmType.IsVariadic() && i >= numFixed {
+				if rt.IsVariadic() && i == rt.NumIn()-1 {
+					// the variadic arguments Go passed, one by one
+					for j := 0; j < in[i].Len(); j++ {
+						args = append(args, in[i].Index(j))
+					}
+				} else {
+					args = append(args, in[i])
+				}
+				continue
+			}
 			// have to do the double reflect.ValueOf that runVMFunction expects
 			args = append(args, reflect.ValueOf(in[i]))
 		}
